@@ -23,6 +23,7 @@ def handle (op : String) (a r : Json) : Except String Reply := do
              sig := "C04/node-does-not-come-back" }
     else
     let units := (getArr r "units").toOption.getD []
+    let startupUnknown := ((getInt r "startup_unknown").toOption.getD 0).toNat
     let role := (getStr a "role").toOption.getD ""
     let mut ms : List Json := []
     let mut bad : Option (String × String) := none
@@ -91,9 +92,15 @@ def handle (op : String) (a r : Json) : Except String Reply := do
         else if (state == 2) && expectOut > 0 && results != "ok" then
           bad := some ("C04/output-not-fetchable", s!"the output of a finished '{kind}' unit cannot be fetched completely after the restart: {results}")
     let m := (match r with
-      | Json.obj kvs => Json.mkObj ((kvs.toList.filter fun (k, _) => k != "units") ++ [("units", jArr ms)])
+      | Json.obj kvs => Json.mkObj ((kvs.toList.filter fun (k, _) => k != "units" && k != "startup_unknown") ++ [("units", jArr ms)]
+                                    ++ (if (optField r "startup_unknown").isSome then [("startup_unknown", jNat 0)] else []))
       | j => j)
-    match bad with
+    -- every unit with a readable record on disk is known at every moment of the start-up (findUnit re-reads a unit's
+    -- directory when it is asked about an ID it does not hold)
+    let bad2 := if bad.isNone && startupUnknown > 0 then
+        some ("C04/unit-unknown-while-node-starts", s!"while the restarted node was registering its work types, {startupUnknown} queries about units that have a readable record on disk were answered 'unknown work unit'")
+      else bad
+    match bad2 with
     | some (sig, why) => pure { m := m, prop := some false, why := why, sig := sig }
     | none => pure { m := m, prop := some true }
   | _ => throw s!"bad-op crash {op}"
